@@ -746,59 +746,65 @@ theorem C03_for_grass_loop (lo hi : Int) (inclusive : Bool) (fuel : Nat)
 /-- Number of declared parameters at index ≥ `npos` (counting from `i`) that are passed by name. -/
 def usedCount (names : List String) (npos : Nat) : Nat → List (String × Option Expr) → Nat
   | _, [] => 0
-  | i, (p, _) :: r => (if npos ≤ i ∧ names.contains p = true then 1 else 0) + usedCount names npos (i + 1) r
+  | i, (p, _) :: r => (if npos ≤ i ∧ p ∈ names then 1 else 0) + usedCount names npos (i + 1) r
 
 /-- What the arity rules demand of each declared parameter: one passed by position is not also
     named; one not passed by position is named or has a default. -/
 def ParamsOk (names : List String) (npos : Nat) (i : Nat) (ps : List (String × Option Expr)) : Prop :=
   ∀ j p d, ps[j]? = some (p, d) →
-    (i + j < npos → names.contains p = false) ∧ (npos ≤ i + j → names.contains p = true ∨ d.isSome = true)
+    (i + j < npos → p ∉ names) ∧ (npos ≤ i + j → p ∈ names ∨ d.isSome = true)
+
+theorem paramsOk_nil (names : List String) (npos i : Nat) : ParamsOk names npos i [] := by
+  intro j p d h; simp at h
+
+theorem paramsOk_cons (names : List String) (npos i : Nat) (p : String) (d : Option Expr)
+    (rest : List (String × Option Expr)) :
+    ParamsOk names npos i ((p, d) :: rest) ↔
+      ((i < npos → p ∉ names) ∧ (npos ≤ i → p ∈ names ∨ d.isSome = true)) ∧
+      ParamsOk names npos (i + 1) rest := by
+  unfold ParamsOk
+  constructor
+  · intro h
+    refine ⟨by simpa using h 0 p d rfl, ?_⟩
+    intro j q e hj
+    have := h (j + 1) q e (by simpa using hj)
+    rw [show i + (j + 1) = i + 1 + j by omega] at this
+    exact this
+  · rintro ⟨h0, hr⟩ j q e hj
+    cases j with
+    | zero => simp at hj; obtain ⟨rfl, rfl⟩ := hj; simpa using h0
+    | succ j =>
+      have := hr j q e (by simpa using hj)
+      rw [show i + (j + 1) = i + 1 + j by omega]
+      exact this
 
 theorem go_iff (names : List String) (npos : Nat) :
     ∀ (ps : List (String × Option Expr)) (i used u : Nat),
       verifyArgs.go npos names i ps used = .inr u ↔
         ParamsOk names npos i ps ∧ u = used + usedCount names npos i ps
   | [], i, used, u => by
-    simp [verifyArgs.go, ParamsOk, usedCount, eq_comm]
+    have := paramsOk_nil names npos i
+    unfold verifyArgs.go usedCount
+    simp only [Sum.inr.injEq, this, true_and, Nat.add_zero]
+    exact eq_comm
   | (p, d) :: rest, i, used, u => by
     have ih := go_iff names npos rest (i + 1)
-    have hcons : ParamsOk names npos i ((p, d) :: rest) ↔
-        ((i < npos → names.contains p = false) ∧ (npos ≤ i → names.contains p = true ∨ d.isSome = true)) ∧
-        ParamsOk names npos (i + 1) rest := by
-      unfold ParamsOk
-      constructor
-      · intro h
-        refine ⟨by simpa using h 0 p d rfl, ?_⟩
-        intro j q e hj
-        have := h (j + 1) q e (by simpa using hj)
-        simpa [Nat.add_assoc, Nat.add_comm 1 j] using this
-      · rintro ⟨h0, hr⟩ j q e hj
-        cases j with
-        | zero => simp at hj; obtain ⟨rfl, rfl⟩ := hj; simpa using h0
-        | succ j =>
-          have := hr j q e (by simpa using hj)
-          simpa [Nat.add_assoc, Nat.add_comm 1 j] using this
-    rw [hcons]
+    rw [paramsOk_cons]
     unfold verifyArgs.go usedCount
+    simp only [List.contains_eq_mem, decide_eq_true_eq]
     by_cases h1 : i < npos
     · have h1' : ¬ npos ≤ i := by omega
-      by_cases h2 : names.contains p = true
+      by_cases h2 : p ∈ names
       · simp [h1, h2]
-      · simp only [h1, if_true, h2, Bool.false_eq_true, if_false, h1', false_and, Nat.zero_add]
-        rw [ih]; simp [h2]
+      · simp [h1, h2, h1', ih]
     · have h1' : npos ≤ i := by omega
-      by_cases h2 : names.contains p = true
-      · simp only [h1, if_false, h2, if_true, h1', true_and]
-        rw [ih]
-        simp [h2, h1']
-        constructor
-        · rintro ⟨a, rfl⟩; exact ⟨a, by omega⟩
-        · rintro ⟨a, rfl⟩; exact ⟨a, by omega⟩
+      by_cases h2 : p ∈ names
+      · simp only [h1, if_false, h2, if_true, h1', true_and, ih, true_or, and_self, false_implies,
+          Nat.add_assoc]
+        simp
       · cases hd : d with
-        | none => simp [h1, h2, hd, h1']
-        | some e =>
-          simp only [h1, if_false, h2, Bool.false_eq_true, Option.isNone_some, h1', and_false, Nat.zero_add]
-          rw [ih]; simp [h2, h1']
+        | none => simp [h1, h2, h1']
+        | some e => simp [h1, h2, h1', ih]
 
 /-- **Arity errors ⇔ binding fails.**  `verifyArgs` accepts a call exactly when every declared
     parameter can be bound (not passed twice; passed, named or defaulted) and — without a rest
@@ -860,10 +866,13 @@ theorem C03_verify_iff (ps : Params) (npos : Nat) (names : List String) :
     | none =>
       simp only [Option.isSome_none, Bool.false_eq_true, if_false, true_implies]
       by_cases h1 : npos > ps.ps.length
-      · simp [h1]; omega
+      · simp [h1]
+        try omega
       · by_cases h2 : usedCount names npos 0 ps.ps < names.length
-        · simp [h1, h2]; omega
-        · simp [h1, h2]; omega
+        · simp [h1, h2]
+          try omega
+        · simp [h1, h2]
+          try omega
 
 example : bindable ⟨[("a", none), ("b", some (.lit .null))], none⟩ 1 [] = true ∧
     bindable ⟨[("a", none), ("b", none)], none⟩ 1 [] = false ∧
